@@ -11,7 +11,7 @@
      good_leaves t  every leaf carries a taxon and no taxon sits on two leaves
    Lengths are integers in units of 2^-10 (None = Python None, counted as 0). *)
 From Coq Require Import ZArith QArith List Bool.
-From DV Require Import Model.PyPrims Model.Tree Model.C14Model Model.C14Spec Proofs.C14Proofs Proofs.C14Means Proofs.C14Clu Proofs.C14Upgma Proofs.C14Nj.
+From DV Require Import Model.PyPrims Model.Tree Model.C14Model Model.C14Spec Proofs.C14Proofs Proofs.C14Means Proofs.C14Clu Proofs.C14Upgma Proofs.C14Nj Proofs.C14Ultra.
 Import ListNotations.
 Open Scope Z_scope.
 
@@ -70,6 +70,14 @@ Theorem pdm_single_node : forall i x lb e,
     p_num_edges p = 1 /\ p_tree_length p = total_length (T i x lb e []).
 Proof. exact pdm_single_node_p. Qed.
 Print Assumptions pdm_single_node.
+
+(* The error branch: below an internal root, a leaf without a taxon makes compile_from_tree raise
+   AssertionError (`assert desc1.taxon is not None`), whatever the rest of the tree looks like
+   (no KeyError can come first: a taxon's row is created before it is paired). *)
+Theorem pdm_untaxoned_leaf : forall t,
+  t_kids t <> [] -> In None (leaf_taxa t) -> compile_from_tree t = Err AssertErr.
+Proof. exact Proofs.C14Pdm.untaxoned_leaf_fails. Qed.
+Print Assumptions pdm_untaxoned_leaf.
 
 (* mean_pairwise_distance(filter_fn, is_weighted_edge_distances, is_normalize_by_tree_size): the
    average, over the unordered pairs of distinct leaf taxa that both pass the filter, of the path
@@ -304,11 +312,8 @@ Print Assumptions clustering_total_on_trees.
    the nodes' reduced distance.  Key lemma closest_equidistant: the closest pair under an
    ultrametric is equidistant from every other node (it is a cherry), so upgma_step_sound applies
    with its soundness clause at every iteration.
-   This is `upgma_recovers_ultrametric` up to the following, NOT proved here: (1) that the matrix
-   of a rose tree whose leaves are equidistant from the root satisfies the three-point condition,
-   (2) that a rooted tree with positive internal edge lengths is determined, up to child order, by
-   its leaf-to-leaf path distances.  With (1) and (2) the theorem below says that UPGMA returns the
-   generating tree; with pdm_exact it already says  PDM(UPGMA(M)) = M  entrywise. *)
+   The tree-level form (the matrix of a rose tree whose leaves are equidistant from the root satisfies
+   the three-point condition, tree_three_point in Proofs/C14Ultra.v) is the next theorem. *)
 Theorem upgma_recovers_ultrametric_partial : forall M order,
   NoDup order -> order <> [] -> mcomplete M order -> msymmetric M order -> ultrametric3 M order ->
   exists T, upgma_tree M order = Ok T /\
@@ -317,6 +322,30 @@ Theorem upgma_recovers_ultrametric_partial : forall M order,
     (exists H, forall a, In a order -> exists q, qdown a T = Some q /\ (q == H)%Q).
 Proof. exact upgma_realizes_ultrametric_l. Qed.
 Print Assumptions upgma_recovers_ultrametric_partial.
+
+(* UPGMA applied to the distances of an ultrametric tree: for every rose tree t (any shape, incl.
+   polytomies and unifurcations) with distinct leaf taxa, non-negative lengths and all leaves at the
+   same distance h from the root, and every iteration order of (any non-empty subset of) its taxa,
+   upgma_tree on t's distance matrix returns an ultrametric tree T whose path distance between any
+   two taxa is exactly t's (dist t a b, in real units) -- PDM(UPGMA(PDM t)) = PDM t.
+   `_partial`: what is NOT proved is the last step from "same leaf-to-leaf distances" to "the same
+   rooted tree up to child order, with its edge lengths" (uniqueness of the dendrogram of an
+   ultrametric, which needs positive internal edge lengths and a binary t); that step is checked by
+   the correspondence oracle (rooted clades + lengths of the output against the generating tree). *)
+Theorem upgma_recovers_ultrametric_tree_partial : forall t p h order,
+  good_leaves t -> t_kids t <> [] -> nonneg_lengths t -> equidistant h t -> compile_from_tree t = Ok p ->
+  NoDup order -> order <> [] -> (forall a, In a order -> In (Some a) (leaf_taxa t)) ->
+  exists T, upgma_tree (qtable p true) order = Ok T /\
+    (forall a b, In a order -> In b order -> a <> b ->
+       exists q d, qdist T a b = Some q /\ dist t a b = Some d /\ (q == uq d)%Q) /\
+    (exists H, forall a, In a order -> exists q, qdown a T = Some q /\ (q == H)%Q).
+Proof. exact upgma_on_ultrametric_tree_l. Qed.
+Print Assumptions upgma_recovers_ultrametric_tree_partial.
+
+Example ultrametric_tree_nonvacuous :
+  good_leaves ex_ultra /\ t_kids ex_ultra <> [] /\ nonneg_lengths ex_ultra /\ equidistant 3072 ex_ultra.
+Proof. exact ex_ultra_ok. Qed.
+Print Assumptions ultrametric_tree_nonvacuous.
 
 (* ---------------------------------------------------------------------------------------- *)
 (* NJ INVERTS ADDITIVE DISTANCES, GIVEN THE Q-CRITERION.  Full statement wanted
